@@ -314,8 +314,10 @@ def proj_link(log):
             if "node" in e or "origin" in e:
                 f["kind"] = "misaddressed"      # wrong node uri / origin: no P action matches
             out.append(f)
-        elif k in ("drop", "dropread", "eof", "frame_error"):
+        elif k in ("drop", "dropread", "eof"):
             out.append({"e": "gone", "r": e["r"]})
+        elif k == "frame_error":
+            out.append({"e": "trunc", "r": e["r"]})
         elif k == "closed":
             out.append({"e": "closed", "r": e["r"]})
             if e.get("reason") in ("RemoteTimedOut", "ChannelClosed") or str(e.get("reason", "")).startswith("DuplicateRegistration"):
